@@ -42,7 +42,10 @@ Load ==
     LET latest == Latest(db)
         cand == {File(latest + 1, "a", FALSE, 1, FALSE), File(latest + 2, "a", FALSE, 1, FALSE),
                  File(latest + 1, "a", TRUE, 1, FALSE), File(latest, "b", FALSE, 1, FALSE),
-                 File(0, "a", FALSE, 1, TRUE), File(2, "a", FALSE, 2, FALSE), File(3, "a", TRUE, 2, FALSE)} IN
+                 File(0, "a", FALSE, 1, TRUE), File(2, "a", FALSE, 2, FALSE),
+                 \* future-dated TRCs of every kind: an update (above), and a BASE TRC (serial 1 of the other ISD)
+                 File(1, "a", TRUE, 2, FALSE)} \cup
+                (IF MaxFiles > 3 THEN {File(3, "a", TRUE, 2, FALSE), File(1, "a", FALSE, 2, FALSE)} ELSE {}) IN
     /\ Len(hist) + 1 \in LoadSteps
     /\ latest + 2 <= MaxSerial
     /\ \E S \in SUBSET cand :
